@@ -46,7 +46,10 @@ def _make_paired_pattern(open_re: str, close_re: str, middle_char: str) -> str:
 # Inline code spans with backticks (handles multi-backtick like ``code``)
 INLINE_CODE_SPAN = AtomicPattern(
     name="inline_code_span",
-    pattern=r"(`+)(?:(?!\1).)+\1",
+    # The delimiters are maximal backtick runs of equal length, as in CommonMark. Anchoring
+    # the opening run (not preceded or followed by another backtick) also keeps matching
+    # linear on long runs of backticks, which otherwise take cubic time.
+    pattern=r"(?<!`)(`+)(?!`).+?(?<!`)\1(?!`)",
     open_delim="",
     close_delim="",
     open_re="",
